@@ -13,7 +13,7 @@
 From Coq Require Import ZArith List Bool.
 Import ListNotations.
 From Urwid Require Import PyBase PyList Utf8 wcwidth_table_gen str_util_gen Width
-     WidthFacts WidthProofs Utf8Proofs WideProofs WideExact RleProofs WidthTableProofs WidthTop.
+     WidthFacts WidthProofs Utf8Proofs Utf8Total WideProofs WideExact RleProofs WidthTableProofs WidthTop.
 Open Scope Z_scope.
 
 (* ================= clause 1: widths are additive over character boundaries ================= *)
@@ -71,6 +71,22 @@ Theorem is_wide_char_agrees :
   is_wide_char wcw MUtf8 (encs s) (boff s a) = Ok (cw wcw ch =? 2).
 Proof. intros wcw s a ch Hs Hn. split; [exact (is_wide_char_str wcw s a ch Hn)|exact (top_is_wide_utf8 wcw s a ch Hs Hn)]. Qed.
 Print Assumptions is_wide_char_agrees.
+
+(* ANY byte string (valid UTF-8 or not): decode_one yields a value chr() accepts and advances by 1..4
+   bytes, so the UTF-8 width queries return a value for every in-range offset - never an exception *)
+Theorem decode_one_total_any_bytes :
+  forall text i, bytes text -> 0 <= i < zlen text ->
+  exists o n, decode_one text i = Ok (o, n) /\ 0 <= o < 1114112 /\ i + 1 <= n <= i + 4.
+Proof. exact decode_one_total. Qed.
+Print Assumptions decode_one_total_any_bytes.
+
+Theorem utf8_width_queries_never_raise :
+  forall wcw text a b col, bytes text -> 0 <= a <= b -> b <= zlen text ->
+  (exists w, calc_width wcw MUtf8 text a b = Ok w) /\
+  (exists p c, calc_text_pos wcw MUtf8 text a b col = Ok (p, c)) /\
+  (b < zlen text -> exists x, is_wide_char wcw MUtf8 text b = Ok x).
+Proof. exact utf8_width_queries_total. Qed.
+Print Assumptions utf8_width_queries_never_raise.
 
 (* ================= clause 3: next character and back ================= *)
 Theorem move_next_prev_inverse_str :
